@@ -79,6 +79,11 @@ func IntersectsIANAReserved(net net.IPNet) bool {
 	if !net.IP.IsGlobalUnicast() {
 		return true
 	}
+	// The address of a network need not be its first address (an iPAddress name
+	// constraint is address||mask, host bits are not required to be zero).
+	if first := net.IP.Mask(net.Mask); first != nil && !first.IsGlobalUnicast() {
+		return true
+	}
 	for _, reserved := range reservedNetworks {
 		if reserved.Contains(net.IP) || net.Contains(reserved.IP) {
 			return true
